@@ -9,6 +9,7 @@ from fgutils.its import get_its, ITS
 from fgutils.rdkit import smiles_to_graph, graph_to_smiles
 
 ID = "C09"
+REPEAT_PROBE = True   # engine: repeat 1 call in 5 after editing its first result in place (purity / no shared state)
 PROPS = "Props/C09.v"
 MODEL_FILES = ["Model/Its.v", "Spec/ItsSpec.v", "Spec/ItsCheck.v"]
 IMPORTS = "From FGV Require Import Model.Aam Model.Its Spec.ItsSpec Spec.ItsCheck."
